@@ -355,6 +355,13 @@ func (w *world) execEV(f []string) string {
 			w.fail("max-trigger-count", fmt.Sprintf("event e%d: TriggerCount %d after %d triggers", e, got, v.oev[e].count),
 				map[string]string{"oracle": "event-count", "api": "event.TriggerCount", "mode": "sequential"})
 		}
+		// the read-only accessors of the trigger settings, against the oracle's own records
+		oe := v.oev[e]
+		if was, reached, max := v.events[e].WasTriggered(), v.events[e].MaxTriggerCountReached(), v.events[e].MaxTriggerCount(); was != (oe.count > 0) ||
+			reached != (oe.max != 0 && uint64(oe.count) > oe.max) || max != int(oe.max) {
+			w.fail("max-trigger-count", fmt.Sprintf("event e%d with limit %d after %d triggers: WasTriggered %v, MaxTriggerCountReached %v, MaxTriggerCount %d", e, oe.max, oe.count, was, reached, max),
+				map[string]string{"oracle": "settings-accessors", "api": "event.triggerSettings", "mode": "sequential"})
+		}
 
 		return strconv.Itoa(got)
 	case "hcount":
@@ -370,6 +377,12 @@ func (w *world) execEV(f []string) string {
 		if oh.fired != want {
 			w.fail("max-trigger-count", fmt.Sprintf("hook h%d with limit %d fired %d times after %d visits", h, oh.max, oh.fired, oh.count),
 				map[string]string{"oracle": "hook-fired", "api": "event.Hook", "mode": "sequential"})
+		}
+
+		if was, reached, max := v.hooks[h].WasTriggered(), v.hooks[h].MaxTriggerCountReached(), v.hooks[h].MaxTriggerCount(); was != (oh.count > 0) ||
+			reached != (oh.max != 0 && uint64(oh.count) > oh.max) || max != int(oh.max) {
+			w.fail("max-trigger-count", fmt.Sprintf("hook h%d with limit %d after %d visits: WasTriggered %v, MaxTriggerCountReached %v, MaxTriggerCount %d", h, oh.max, oh.count, was, reached, max),
+				map[string]string{"oracle": "settings-accessors", "api": "event.Hook", "mode": "sequential"})
 		}
 
 		return strconv.Itoa(v.hooks[h].TriggerCount())
